@@ -61,11 +61,12 @@ type world struct {
 	beh    map[uint64]behIn   // by message id (push kind: by step)
 	curBeh behIn
 	rngs   map[[2]uint64]*rand.Rand
+	rcalls map[[2]uint64]int // remote port calls so far per (plan, owner)
 	cancel context.CancelFunc // sequential kinds: cancels the context of the running call
 }
 
 func newWorld(kind string, cfg cfgIn) *world {
-	w := &world{kind: kind, cfg: cfg, byMsg: map[uint64]int{}, beh: map[uint64]behIn{}, rngs: map[[2]uint64]*rand.Rand{}}
+	w := &world{kind: kind, cfg: cfg, byMsg: map[uint64]int{}, beh: map[uint64]behIn{}, rngs: map[[2]uint64]*rand.Rand{}, rcalls: map[[2]uint64]int{}}
 	w.cur.Store(-1)
 	return w
 }
@@ -214,6 +215,50 @@ func (f fakeRemote) PushOwner(_ context.Context, push onlinedelivery.OwnerPush) 
 	b := w.behOf(e.plan, e.msgid)
 	r := w.rng(b, e.plan, push.OwnerNodeID+1)
 	w.sleep(r, b)
+	w.mu.Lock()
+	ck := [2]uint64{uint64(e.plan + 1), push.OwnerNodeID}
+	call := w.rcalls[ck]
+	w.rcalls[ck] = call + 1
+	w.mu.Unlock()
+	if call < len(b.RScript) {
+		partial := func() onlinedelivery.OwnerPushResult {
+			var res onlinedelivery.OwnerPushResult
+			for i, rt := range push.Routes {
+				if i == 0 && len(push.Routes) > 1 {
+					res.Accepted = append(res.Accepted, rt)
+				} else {
+					res.Retryable = append(res.Retryable, rt)
+				}
+			}
+			return res
+		}
+		switch b.RScript[call] {
+		case "partial":
+			res := partial()
+			e.acc, e.retry, e.drop = res.Accepted, res.Retryable, res.Dropped
+			return res, nil
+		case "retry":
+			res := onlinedelivery.OwnerPushResult{Retryable: append([]Route(nil), push.Routes...)}
+			e.retry = res.Retryable
+			return res, nil
+		case "ok":
+			res := onlinedelivery.OwnerPushResult{Accepted: append([]Route(nil), push.Routes...)}
+			e.acc = res.Accepted
+			return res, nil
+		case "err":
+			e.err = 1
+			return onlinedelivery.OwnerPushResult{}, errors.New("verif: scripted remote transport error")
+		case "errres":
+			res := partial()
+			e.acc, e.retry, e.drop = res.Accepted, res.Retryable, res.Dropped
+			e.err = 1
+			return res, errors.New("verif: scripted remote transport error with partial result")
+		case "panic":
+			e.err = 2
+			e.retry = e.routes
+			panic("verif: scripted remote owner pusher panic")
+		}
+	}
 	if b.PPanic > 0 && r.IntN(100) < b.PPanic {
 		e.err = 2
 		e.retry = e.routes
